@@ -60,6 +60,9 @@ def main():
             lines = [l for l in (c.stdout + c.stderr).splitlines() if l.startswith("VIOLATION") or l.startswith("[" + p) or
                      l.startswith("  [" + p) or "too little" in l or "BUILD ERROR" in l or "machinery error" in l]
             results[p] = c.returncode
+            if c.returncode == 1 and not any(l.startswith("VIOLATION property=") for l in lines):
+                results[p] = 98   # exit 1 without a VIOLATION line: not a verdict
+                print("   (exit 1 without a VIOLATION line)\n" + (c.stdout + c.stderr)[-1500:])
             print("== %s exit %d" % (p, c.returncode))
             for l in lines[:12]:
                 print("   " + l[:300])
